@@ -1,4 +1,6 @@
 \* every bit flip / truncation of the generated files selected by CF_DAMAGE is rejected by the decoder
+\* module ContentFormatMC; needs witness_crc32c.json in the working directory (harness/py/cfmt.py write_crc_witness);
+\* run through harness/py/cfspec.py, which copies the spec into a private directory under out/
 CONSTANT Part = "damage"
 INIT Init
 NEXT Next
